@@ -154,7 +154,7 @@ def run(tier, v):
     }
     return "model_checking", cov, [
         "design level exhaustive within: <= 3 listed requests, multiplicities 1..3, sleeps 0/3/4 ms, 9 flow profiles, "
-        "scripts ok / transport@k / status 418@k for every k of the first shot + 1, 2 shots; weights in {1,2,3,4,6} for 1..3 scenarios",
+        "scripts ok / transport@k / status 418@k / truncated body@k for every k of the first shot + 1, 2 shots; weights in {1,2,3,4,6} for 1..3 scenarios",
         "the replayed subset of the flow cases is chosen by id modulo (seeded); ring, iter and next cases are all replayed",
         "pauses are checked one-sidedly (>= requested); min_waiting_time, [rand] and the html templater are not modelled",
         "trusted: renderer and recorder (harness/cmd/vdrive/scenario.go, harness/internal/scentarget)"]
